@@ -42,12 +42,17 @@ struct GThread {
     cur_busy: Vec<u64>,
     pending_nest: Option<Nest>,
     cur_adapter: Option<u64>,
+    /// the pushes still to perform belong to a poll that completed its adapter (or to a drop of
+    /// an adapter / root): the window in which guard, span and commit are pushed one by one
+    final_pushes: bool,
 }
 
 #[derive(Clone, Debug, Default)]
 struct SpanInfo {
     inuse: u32,
     out: bool,
+    /// for roots: the sampling decision
+    root_sampled: Option<bool>,
 }
 
 #[derive(Clone, Debug)]
@@ -261,7 +266,7 @@ impl<'a> Gen<'a> {
                     self.zero_prefix_used = true;
                 }
                 self.orch.spawn(t, p, sfx);
-                self.threads.insert(t, GThread { st: TSt::Ready, scoped: vec![], nest: vec![], cur_busy: vec![], pending_nest: None, cur_adapter: None });
+                self.threads.insert(t, GThread { st: TSt::Ready, scoped: vec![], nest: vec![], cur_busy: vec![], pending_nest: None, cur_adapter: None, final_pushes: false });
                 self.log(tb, &format!("S {} {} {}", t, p, sfx), "-");
             }
             Act::Call(t, toks) => {
@@ -402,7 +407,9 @@ impl<'a> Gen<'a> {
         match th.st {
             TSt::Gone => return,
             TSt::Push | TSt::Exiting => {
-                cands.push((if self.coll == CollSt::Check && self.prof.name == "exit" { 40 } else { 14 }, Act::Push(t)));
+                // between the pushes of a completing poll the collector gets more chances
+                let w = if self.coll == CollSt::Check && self.prof.name == "exit" { 40 } else if th.final_pushes { 5 } else { 14 };
+                cands.push((w, Act::Push(t)));
                 return;
             }
             TSt::Ready => {}
@@ -456,8 +463,19 @@ impl<'a> Gen<'a> {
                 cands.push((6, c(vec![s("child"), s(h), s(name), s(p)])));
                 let k = self.rng.below(4);
                 let mut toks = vec![s("childn"), s(h), s(name), s(k)];
-                for _ in 0..k {
-                    toks.push(s(self.pick_span(&all)));
+                let unsampled: Vec<u64> = all.iter().copied().filter(|x| self.spans[x].root_sampled == Some(false)).collect();
+                let sampled: Vec<u64> = all.iter().copied().filter(|x| self.spans[x].root_sampled == Some(true)).collect();
+                if k >= 2 && !unsampled.is_empty() && !sampled.is_empty() && self.rng.chance(1, 2) {
+                    // parents of both kinds, the unsampled one first
+                    toks.push(s(*self.rng.pick(&unsampled)));
+                    toks.push(s(*self.rng.pick(&sampled)));
+                    for _ in 2..k {
+                        toks.push(s(self.pick_span(&all)));
+                    }
+                } else {
+                    for _ in 0..k {
+                        toks.push(s(self.pick_span(&all)));
+                    }
                 }
                 cands.push((3, c(toks)));
             } else {
@@ -594,6 +612,9 @@ impl<'a> Gen<'a> {
     fn pre_call(&mut self, t: usize, toks: &[String]) {
         let pu = |x: &String| x.parse::<u64>().unwrap_or(0);
         let head = toks[0].as_str();
+        if let Some(th) = self.threads.get_mut(&t) {
+            th.final_pushes = head == "addrop";
+        }
         match head {
             "root" | "child" | "childn" | "childl" | "noop" => {
                 let h = pu(&toks[1]);
@@ -607,7 +628,16 @@ impl<'a> Gen<'a> {
                         self.zero_trace_used = true;
                     }
                 }
-                self.spans.insert(h, SpanInfo { inuse: 0, out: true });
+                self.spans.insert(h, SpanInfo { inuse: 0, out: true, root_sampled: if head == "root" { Some(toks[5] == "1") } else { None } });
+                if head == "childn" {
+                    // a span with both sampled and unsampled parents becomes the focus: it is then
+                    // preferentially made local parent, asked for its context, given children
+                    let k = pu(&toks[3]) as usize;
+                    let kinds: Vec<bool> = (0..k).filter_map(|i| self.spans.get(&pu(&toks[4 + i])).and_then(|x| x.root_sampled)).collect();
+                    if kinds.contains(&true) && kinds.contains(&false) {
+                        self.focus = Some(h);
+                    }
+                }
                 let mut busy = vec![h];
                 if head == "child" {
                     busy.push(pu(&toks[3]));
@@ -710,6 +740,7 @@ impl<'a> Gen<'a> {
             "polle" => {
                 let a = pu(&toks[1]);
                 let th = self.threads.get_mut(&t).unwrap();
+                th.final_pushes = toks.last().map(|x| x != "pending").unwrap_or(false);
                 th.cur_adapter = Some(a);
                 th.nest.pop();
                 th.scoped.pop();
@@ -731,7 +762,10 @@ impl<'a> Gen<'a> {
         if !self.installed {
             return;
         }
-        let w = self.prof.w_collector;
+        let mut w = self.prof.w_collector;
+        if self.threads.values().any(|x| x.final_pushes && x.st == TSt::Push) {
+            w *= 3;
+        }
         match self.coll {
             CollSt::Idle => cands.push((w / 2 + 1, Act::CB)),
             CollSt::Pop => cands.push((w * 2, Act::CP)),
